@@ -30,7 +30,17 @@ def init_state(I: Interp, c: dsl.Contract, fi):
     for i, p in enumerate(params):
         v = Sym(z3.Const("arg_" + p, V))
         st.pc.append(z3.Implies(is_ref(v.t), get_loc(v.t) < st.A0))
+        if p in c.ldict_params:
+            lid = I.w.fresh("D")
+            st.lheap[lid] = {key: Sym(z3.Const(f"arg_{p}_{key}", V)) for key in c.ldict_params[p]}
+            for vv in st.lheap[lid].values():
+                st.pc.append(z3.Implies(is_ref(vv.t), get_loc(vv.t) < st.A0))
+            env[p] = LDict(lid)
+            continue
         ty = c.param_types.get(p)
+        if ty is not None and ty.startswith("class:"):
+            env[p] = ClassV(I.w.resolve_class(ty[6:]))
+            continue
         if ty is None and i == 0 and fi.cls and fi.kind in ("method", "property", "contextmanager") and p == "self":
             ty = fi.cls
         if ty is None and i == 0 and fi.kind == "classmethod":
@@ -61,6 +71,7 @@ def verify_function(I: Interp, q: str, prop: str) -> FuncResult:
     w = I.w
     res = FuncResult(q)
     c = I.reg.contracts[q]
+    q = c.q
     fi = w.funcs.get(q)
     n0 = len(I.obligs)
     if fi is None:
@@ -70,6 +81,8 @@ def verify_function(I: Interp, q: str, prop: str) -> FuncResult:
     try:
         st, params = init_state(I, c, fi)
         entry_env = dict(st.env)
+        for nm_, ex_ in getattr(c, "site_old", {}).items():
+            entry_env[nm_] = I.spec_value(st, ex_, entry_env)     # entry values named for site assertions
         I.cur_entry = entry_env
         for nm, expr in c.requires_l + c.assumes_l:
             st.pc.append(I.spec_bool(st, expr, entry_env, old=st.snapshot()))
